@@ -237,7 +237,8 @@ def gen_graph_case(rng):
                 if rng.random() < p:
                     g[a].add(b)
     kind = "virtuals"
-    lines = ['[$default byte_order: "LittleEndian"]', "struct Graph:", "  0 [+1]  UInt  base"]
+    lines = ['[$default byte_order: "LittleEndian"]', "struct Par(p: UInt:64):", "  0 [+1]  UInt  y",
+             "struct Graph:", "  0 [+1]  UInt  base"]
     phys = {}
     order = list(range(n))
     if rng.random() < 0.5:
@@ -247,13 +248,21 @@ def gen_graph_case(rng):
         kind = "mixed"
         for x in names:
             if rng.random() < 0.3:
-                phys[x] = rng.choice(["loc", "cond", "size"])
+                # "arg": a field of a parameterised type whose argument mentions the successors; it is mentioned
+                # by others through its member y
+                phys[x] = rng.choice(["loc", "cond", "size", "arg", "arg"])
+
+    def term(d):
+        return d + ".y" if phys.get(d) == "arg" else d
+
     for i in order:
         x = names[i]
-        deps = sorted(g[x])
+        deps = [term(d) for d in sorted(g[x])]
         expr = " + ".join(deps + ["1"]) if deps else rng.choice(["base", "1", "base + 2"])
         if x in phys:
-            if phys[x] == "loc":
+            if phys[x] == "arg":
+                lines.append("  1 [+1]  Par(%s)  %s" % (expr, x))
+            elif phys[x] == "loc":
                 lines.append("  %s [+1]  UInt  %s" % ("(%s)" % expr if deps else "1", x))
             elif phys[x] == "size":
                 lines.append("  1 [+%s]  UInt:8[]  %s" % ("(%s)" % expr if deps else "1", x))
@@ -270,7 +279,7 @@ def gen_graph_case(rng):
             # rewrite as location form instead
             idx = [k for k, l in enumerate(lines) if l.endswith("UInt:8[]  %s" % x)]
             for k in idx:
-                deps = sorted(g[x])
+                deps = [term(d) for d in sorted(g[x])]
                 expr = " + ".join(deps + ["1"]) if deps else "1"
                 lines[k] = "  %s [+1]  UInt  %s" % ("(%s)" % expr, x)
     files = {"m.emb": "\n".join(lines) + "\n"}
